@@ -180,10 +180,25 @@ fn relations(g: &Group, parent_abs: usvg::Transform, at: &str, key: &str, s: &mu
                 if im.abs_transform() != parent_abs {
                     s.finding("oracle:C12:abs-transform-not-product", &format!("{}: image abs_transform", here), key);
                 }
+                // the absolute box is the image's own box mapped by the absolute transform
+                if let Some(m) = im.bounding_box().transform(im.abs_transform()) {
+                    if !contains(m, im.abs_bounding_box(), eps(m) * 4.0) || !contains(im.abs_bounding_box(), m, eps(m) * 4.0) {
+                        s.finding("oracle:C12:abs-box-not-mapped-object-box:image", &format!("{}: image abs box {:?}, object box mapped {:?}", here, im.abs_bounding_box(), m), key);
+                    }
+                }
             }
             Node::Text(t) => {
                 if t.abs_transform() != parent_abs {
                     s.finding("oracle:C12:abs-transform-not-product", &format!("{}: text abs_transform", here), key);
+                }
+                // (bounds of the mapped corners contain the bounds of the mapped outlines; equal without skew)
+                if let Some(m) = t.bounding_box().transform(t.abs_transform()) {
+                    if !contains(m, t.abs_bounding_box(), eps(m) * 4.0) {
+                        s.finding("oracle:C12:abs-box-not-mapped-object-box:text", &format!("{}: text abs box {:?}, object box mapped {:?}", here, t.abs_bounding_box(), m), key);
+                    }
+                    if !t.abs_transform().has_skew() && !contains(t.abs_bounding_box(), m, eps(m) * 4.0) {
+                        s.finding("oracle:C12:abs-box-not-mapped-object-box:text", &format!("{}: text abs box {:?}, object box mapped {:?}", here, t.abs_bounding_box(), m), key);
+                    }
                 }
             }
         }
@@ -304,6 +319,11 @@ pub fn search(tier: &str, seed: u64, s: &mut Search) {
             1 => format!(r#"<path d="M {x} {y} l {sw} 3 l -{} {sh} l 4 -9" fill="none"{stroke}/>"#, sw / 2),
             2 => format!(r#"<path d="M {x} {y} L {} {} L {} {}" fill="green"{stroke} marker-start="url(#mk)" marker-mid="url(#mk)" marker-end="url(#mk)"/>"#, x + sw, y + 2, x + sw / 3, y + sh),
             3 => format!(r#"<text x="{x}" y="{y}" font-size="{}" fill="black"{}>Ag{}</text>"#, rng.range(8, 30), if rng.chance(1, 2) { stroke.clone() } else { String::new() }, if rng.chance(1, 2) { "jÉ" } else { "" }),
+            4 if i % 16 < 8 => {
+                // an SVG image whose content reaches far beyond its own size: only the image rectangle may be painted
+                let inner = format!(r##"<svg xmlns="http://www.w3.org/2000/svg" width="{sw}" height="{sh}"><rect x="-200" y="{}" width="500" height="4" fill="#d00"/><circle cx="{sw}" cy="{sh}" r="{}" fill="#06c" stroke="black" stroke-width="3"/></svg>"##, sh / 3, sw.max(sh));
+                format!(r#"<image x="{x}" y="{y}" width="{sw}" height="{sh}" preserveAspectRatio="{}" xlink:href="data:image/svg+xml;base64,{}"/>"#, *rng.pick(&["none", "xMidYMid meet", "xMinYMax slice"]), crate::c17::b64(inner.as_bytes()))
+            }
             4 => format!(r#"<image x="{x}" y="{y}" width="{sw}" height="{sh}" preserveAspectRatio="{}" xlink:href="{png}"/>"#, *rng.pick(&["none", "xMidYMid meet", "xMinYMax slice"])),
             5 => format!(r##"<use xlink:href="#sym" x="{x}" y="{y}" width="{sw}" height="{sh}"/>"##),
             6 => format!(r#"<svg x="{x}" y="{y}" width="{sw}" height="{sh}" viewBox="0 0 10 10" overflow="{}"><circle cx="5" cy="5" r="7" fill="purple"/></svg>"#, *rng.pick(&["hidden", "visible"])),
